@@ -669,6 +669,10 @@ def transcripts(ctx, rep):
                     old = se.call_old.get((raw[3][:2], 0))
                     if old is not None and strip(old)[0] == "repeat" and strip(old)[1][:2] == ("int", 0) and strip(old)[2] == 20:
                         c_ = ("out",)
+                    elif old is not None and peel(old) in hset:
+                        # one digest written into the result first, the other xor-ed on top in place
+                        comp[proj] = ("elem", peel(old), "inout")
+                        return
                 comp[proj] = ("elem", c_)
 
         if t is not None:
@@ -689,7 +693,7 @@ def transcripts(ctx, rep):
         for (bi, si), (loc, v) in se.assigns.items():
             if loc[0] == "index" and out_local is not None and loc[1] == out_local and strip(loc[2]) in comp and comp[strip(loc[2])][0] == "index":
                 stores.append(v)
-            elif loc[0] == "deref" and strip(loc[1]) in comp and comp[strip(loc[1])] == ("elem", ("out",)):
+            elif loc[0] == "deref" and strip(loc[1]) in comp and (comp[strip(loc[1])] == ("elem", ("out",)) or len(comp[strip(loc[1])]) == 3):
                 stores.append(v)
         if len(stores) == 1:
             v = strip(stores[0])
